@@ -31,6 +31,18 @@ CLAIMED["C16"] = dict(
     technique="TLA+ spec + TLC model checking (refinement by invariant); replay of TLC behaviours; trace validation by TLC",
 )
 
+CLAIMED["C06"] = dict(
+    category="model_checking",
+    text="EquivDB.tla states the equivalence database abstractly (edge sets, marks, reported partition, dirty flag) with "
+         "reachability defined by fixed-point iteration. TLC explores the complete state graph over 3 labels (and bounded depth "
+         "over 4, simulation over 5), exports a transition cover; each history is replayed on a real EquivalenceDB with all pairs "
+         "queried after every step and explanation paths requested; TLC judges every trace (soundness always, exactness after "
+         "cycle detection, verified-iff-marked, path validity) and the equivalence traffic of real searches.",
+    design_ref="DESIGN.md 3/C06",
+    note="Trusted: TLC, the recorder. Exactness demanded only when no edge was added since the last cycle detection.",
+    technique="TLA+ spec + TLC model checking; replay of TLC behaviours; trace validation by TLC",
+)
+
 NOT_YET = {}
 
 ALL = ["C%02d" % i for i in range(1, 21)]
